@@ -979,7 +979,19 @@ mod pipeline {
                 if idx != cnt - 1 {
                     runner = runner.stdout(Redirection::Pipe);
                 }
-                ret.push(runner.popen()?);
+                match runner.popen() {
+                    Ok(p) => ret.push(p),
+                    Err(e) => {
+                        // The commands started so far are waited for when
+                        // `ret` is dropped.  Close the write end of the first
+                        // command's stdin pipe first, or a command reading
+                        // its input to the end would never exit.
+                        if let Some(first) = ret.first_mut() {
+                            first.stdin.take();
+                        }
+                        return Err(e);
+                    }
+                }
             }
             Ok(ret)
         }
